@@ -63,9 +63,14 @@ def check(ctx):
             n_setters += 1
             ok = od == ("aggr", "core::option::Option", "None", ()) and hd == ("param", 1)
             what = "builder setter discards retained wire bytes (None) and takes the given header"
+        elif od == ("aggr", "core::option::Option", "None", ()):
+            # any other place that builds a protected header from a Header it was given (a conversion, a constructor):
+            # it claims no wire bytes, so the header is serialised afresh - that is the locally-built case
+            ok = True
+            what = "a locally built protected header carries no wire bytes (None)"
         else:
             ok = False
-            what = "unexpected construction of ProtectedHeader"
+            what = "construction of ProtectedHeader with retained bytes outside the wire constructor"
         ctx.ob("R-1", "ctor:%s" % f.key, ok, "%s: %s" % (f.key, what), where=f.where(bi),
                detail={"original_data": show(od)[:100] if od else None, "header": show(hd)[:100] if hd else None},
                sample={"fn": f.key, "original_data": show(od)[:80] if od else None} if f.key in (WIRE_CTOR,) else None)
@@ -233,8 +238,11 @@ def check(ctx):
 
     # ---- R-5 ------------------------------------------------------------------------------------------------------
     n = 0
+    allv = prog.view("all")     # public functions with everything they call expanded in place (helpers have no say)
     for sfn in STRUCTURES:
-        for f, bb in S.structure_call_sites(prog, sfn):
+        for f, bb in S.structure_call_sites(allv, sfn):
+            if not f.is_pub:
+                continue        # a private function is judged where it is used
             pv = Prov(f)
             t = f.blocks[bb]["term"]
             args = [pv.operand_term(a, bb, "term") for a in t["args"]]
@@ -268,6 +276,13 @@ def _is_stored_protected(t):
     if t[0] != "field" or t[2] != "protected":
         return False
     base = t[1]
-    while base[0] in ("deref", "field") and (base[0] == "deref" or base[2] == "0"):
-        base = base[1]
+    while True:
+        if base[0] in ("deref", "ref"):
+            base = base[1]
+        elif base[0] == "field" and base[2] in ("0", "signatures"):
+            base = base[1]
+        elif is_call(base, "core::ops::index::Index::index") and len(base[2]) == 2:
+            base = base[2][0]          # one signer of self.signatures
+        else:
+            break
     return base[0] == "param"
